@@ -137,6 +137,48 @@ theorem run_silent_printed {σ : Type} (L : Loop σ) :
     · rfl
     · exact ih _ _ _
 
+/-! ### CP-APR MU: the status line only reads; the fix-up sees exact entries -/
+
+theorem mu_print_independent {α : Type} [Add α] [Zero α] [LT α] [DecidableLT α] (kappa kappatol : α)
+    (inner : Ktensor α → Nat → Ktensor α × Mat α × α × Bool) (pr₁ pr₂ : Nat → Bool → Bool)
+    (fuel it : Nat) (s : MuState α) (o₁ o₂ : List String) :
+    ((muLoop kappa kappatol inner).run pr₁ fuel it s o₁).state =
+      ((muLoop kappa kappatol inner).run pr₂ fuel it s o₂).state ∧
+    ((muLoop kappa kappatol inner).run pr₁ fuel it s o₁).iters =
+      ((muLoop kappa kappatol inner).run pr₂ fuel it s o₂).iters :=
+  run_print_independent_pure (muLoop kappa kappatol inner) (fun _ => rfl) pr₁ pr₂ fuel it s o₁ o₂
+
+theorem zipWith_right_id {β γ : Type} (f : β → γ → γ) :
+    ∀ (l₁ : List β) (l₂ : List γ), l₂.length ≤ l₁.length → (∀ p, ∀ a ∈ l₂, f p a = a) →
+      List.zipWith f l₁ l₂ = l₂ := by
+  intro l₁ l₂
+  induction l₂ generalizing l₁ with
+  | nil => intro _ _; simp
+  | cons a as ih =>
+    intro hlen h
+    cases l₁ with
+    | nil => simp at hlen
+    | cons p ps =>
+      simp only [List.zipWith_cons_cons]
+      rw [h p a (by simp), ih ps (by simpa using hlen) (fun q b hb => h q b (by simp [hb]))]
+
+/-- the fix-up leaves a factor alone when none of its entries is below `kappatol` -/
+theorem muFixup_id {α : Type} [Add α] [Zero α] [LT α] [DecidableLT α] (kappa kappatol : α) :
+    ∀ (Phi A : Mat α), List.Forall₂ (fun prow arow => arow.length ≤ prow.length) Phi A →
+      (∀ arow ∈ A, ∀ a ∈ arow, ¬ a < kappatol) → muFixup kappa kappatol Phi A = A := by
+  intro Phi A hsh
+  induction hsh with
+  | nil => intro _; rfl
+  | cons hrow _ ih =>
+    intro hpos
+    simp only [muFixup, List.zipWith_cons_cons]
+    congr 1
+    · apply zipWith_right_id _ _ _ hrow
+      intro p a ha
+      have : ¬ a < kappatol := hpos _ (by simp) a ha
+      simp [this]
+    · exact ih (fun arow har a ha => hpos arow (by simp [har]) a ha)
+
 /-! ### CP-APR: the re-normalisation of the likelihood evaluation -/
 
 section apr
